@@ -137,6 +137,8 @@ func (e *Expr) String() string {
 		return "old(" + e.A[0].String() + ")"
 	case "typeof":
 		return "typeof(" + e.A[0].String() + ")"
+	case "slicetype":
+		return "[]" + e.A[0].String()
 	case "forall", "exists":
 		var vs []string
 		for _, v := range e.Vars {
@@ -403,6 +405,15 @@ func (p *parser) primary() (*Expr, error) {
 	case tStr:
 		return &Expr{Op: "str", S: t.s}, nil
 	case tOp:
+		if t.s == "[" && p.isOp("]") {
+			// slice type expression  []T
+			p.next()
+			el, err := p.unary()
+			if err != nil {
+				return nil, err
+			}
+			return &Expr{Op: "slicetype", A: []*Expr{el}}, nil
+		}
 		if t.s == "(" {
 			e, err := p.expr()
 			if err != nil {
